@@ -293,6 +293,17 @@ def run_check(prop, prop_v, tier, gen, what, rule, extra_assumptions=()):
     cases = corpus_cases(prop) + cases
     cases = plan(cases)
     r = vlib.differential(COMP, exe, cases, eq=wild_eq)
+    # second pass with the library's own growth policy (hook off): sparse writes inside spare
+    # capacity and other Size() < Capacity() paths do not exist under exact-fit growth
+    exe_nh, msg_nh = vlib.build_cpp("drv_value_nohook", "drv_value.cpp", hook=False)
+    if exe_nh is not None:
+        r_nh = vlib.differential(COMP, exe_nh, cases[: max(1500, len(cases) // 2)], eq=wild_eq)
+        have = set(c for (c, i, m, t) in r.oracle_fail)
+        r.oracle_fail += [x for x in r_nh.oracle_fail if x[0] not in have]
+        have = set(c for (c, i, m) in r.mismatch)
+        r.mismatch += [x for x in r_nh.mismatch if x[0] not in have]
+        r.crashes += r_nh.crashes
+        r.n += r_nh.n
 
     found_input = False
     seen = set()
